@@ -1334,6 +1334,9 @@ func main() {
 		"timing wavefront offsets are those the CP resource allocator can produce (multiples of 16 SGPRs / 4 VGPRs, allocation inside the 256-VGPR lane window)",
 		"one acting wavefront per history; other wavefronts are bystanders whose every byte is compared",
 	}
+	// registers of co-resident wavefronts on the real timing CU across wavefront termination and kernel launches
+	// (the scheduler resets a finished wavefront's registers): auxiliary binary built from checks/c14
+	r.RunPart("cu", "-part-of=C07")
 	r.Finish()
 }
 
@@ -1344,6 +1347,10 @@ func replay(r *harness.Run, full []op) {
 	if err != nil {
 		fmt.Fprintln(os.Stderr, err)
 		os.Exit(2)
+	}
+	if bytes.Contains(data, []byte(`"scenario"`)) {
+		// a finding of the part "cu" (explorer replay file)
+		os.Exit(harness.RunPartBinary("cu", "-part-of=C07", "-replay", r.Replay))
 	}
 	var f struct {
 		Signature string     `json:"signature"`
